@@ -121,6 +121,7 @@ func init() {
 		on, _ := a[0].(*Term).BoolVal()
 		ex.schedOn = on
 		ex.maxSwitch = ex.concreteInt(a[1], "max switches", site)
+		ex.switches = 0 // the budget counts preemptions (voluntary switches at sync points) from here on
 		return nil
 	}
 	prims["vRace"] = func(ex *Exec, fr *Frame, site ssa.Instruction, a []Value) Value {
